@@ -652,6 +652,11 @@ mod cup {
         match b {
             "b1" => br#"{"request":{"protocol":"3.0","app":[{"appid":"a"}]}}"#.to_vec(),
             "b2" => br#"{"response":{"protocol":"3.0","app":[{"appid":"a","status":"ok"}]}}"#.to_vec(),
+            "b3" => {
+                let mut v = b")]}'\n".to_vec();
+                v.extend_from_slice(br#"{"response":{"protocol":"3.0","app":[{"appid":"a","status":"ok"}]}}"#);
+                v
+            }
             _ => vec![],
         }
     }
@@ -1006,6 +1011,8 @@ mod wire {
                 }
                 a
             }
+            "t4" => App::builder().id("APP-A").version([3, 0, 0, 0]).cohort(Cohort { id: None, hint: None, name: Some("up".into()) })
+                .user_counting(UserCounting::ClientRegulatedByDate(Some(34))).build(),
             _ => App::builder().id("app-b").version([0, 0, 0, 1]).user_counting(UserCounting::ClientRegulatedByDate(Some(0))).build(),
         }
     }
